@@ -29,7 +29,7 @@ def _sig_hash(s):
 
 def work(args):
     """Worker: execute runs [start, start+count) of (seed, prop)."""
-    seed, prop, start, count, keep_samples = args
+    seed, prop, start, count, keep_samples, depth = args
     faulthandler.dump_traceback_later(CHUNK_TIMEOUT - 30, exit=True)
     from sim.gen import generate
     from sim.run import simulate
@@ -41,7 +41,7 @@ def work(args):
     simtime = 0.0
     samples = []
     for run in range(start, start + count):
-        sched = generate(seed, prop, run)
+        sched = generate(seed, prop, run, depth)
         try:
             o = simulate(sched, prop)
         except BaseException as e:  # noqa
@@ -82,9 +82,9 @@ def work(args):
             "simtime": simtime, "samples": samples}
 
 
-def digest_only(prop, seed, start, count):
+def digest_only(prop, seed, start, count, depth=0):
     """Print one line per run: verdict and event-log digests (fresh interpreter)."""
-    r = work((seed, prop, start, count, False))
+    r = work((seed, prop, start, count, False, depth))
     for row in r["rows"]:
         print(row["run"], row["verdict"], row["ff"], row["fault"])
 
@@ -117,11 +117,11 @@ def match_known(v, known):
     return None
 
 
-def determinism_selftest(prop, seed, ndet, pool_rows, nproc):
+def determinism_selftest(prop, seed, ndet, pool_rows, nproc, tier="quick"):
     """Same runs in fresh interpreters under other PYTHONHASHSEEDs and another
     process layout; event-log digests must be identical."""
     t = time.time()
-    per = max(1, ndet // nproc)
+    per = max(1, -(-ndet // nproc))
     jobs = []
     for hs_i, hs in enumerate(("1", "4242")):
         for j in range(nproc):
@@ -133,7 +133,7 @@ def determinism_selftest(prop, seed, ndet, pool_rows, nproc):
             env["PYTHONHASHSEED"] = hs
             env["OPENBLAS_NUM_THREADS"] = "1"
             env["OMP_NUM_THREADS"] = "1"
-            cmd = [sys.executable, os.path.join(VERIF, "check.py"), prop, "--digest-only",
+            cmd = [sys.executable, os.path.join(VERIF, "check.py"), prop, "--digest-only", "--tier", tier,
                    "--seed", str(seed), "--start", str(start), "--count", str(cnt)]
             jobs.append((hs, start, cnt, subprocess.Popen(cmd, stdout=subprocess.PIPE, stderr=subprocess.PIPE,
                                                           text=True, env=env, cwd=VERIF)))
@@ -187,12 +187,14 @@ def main(argv=None):
     os.environ.setdefault("OPENBLAS_NUM_THREADS", "1")
     os.environ.setdefault("OMP_NUM_THREADS", "1")
     seed = a.seed if a.seed is not None else int(os.environ.get("VERIF_SEED", DEFAULT_SEED))
-    if a.digest_only:
-        digest_only(a.prop, seed, a.start, a.count)
-        return 0
     tier = a.tier or os.environ.get("VERIF_TIER") or "quick"
     if tier not in TIERS:
         tier = "quick"
+    from sim.gen import DEPTH
+    depth = DEPTH[tier]
+    if a.digest_only:
+        digest_only(a.prop, seed, a.start, a.count, depth)
+        return 0
     cfg = TIERS[tier]
     nruns = a.runs or cfg["runs"][a.prop]
     nproc = a.workers or min(16, os.cpu_count() or 1)
@@ -209,7 +211,7 @@ def main(argv=None):
     first = True
     while s < nruns:
         c = min(chunk, nruns - s)
-        tasks.append((seed, prop, s, c, first))
+        tasks.append((seed, prop, s, c, first, depth))
         first = False
         s += c
     rows = {}
@@ -244,7 +246,7 @@ def main(argv=None):
     # ---- determinism self-test ---------------------------------------------------
     det = None
     if not a.no_selftest:
-        det = determinism_selftest(prop, seed, min(cfg["det"], nruns), rows, nproc)
+        det = determinism_selftest(prop, seed, min(cfg["det"], nruns), rows, nproc, tier)
         if det["n_divergences"] or det["errors"]:
             print("HARNESS-ERROR: determinism self-test failed: %s %s" % (det["divergences"], det["errors"]), flush=True)
 
@@ -277,7 +279,7 @@ def main(argv=None):
                 continue
             attempts += 1
             seen_inv.add(inv)
-            sched = generate(seed, prop, row["run"])
+            sched = generate(seed, prop, row["run"], depth)
             o = simulate(sched, prop)
             if not o["violations"]:
                 print("HARNESS-ERROR: violation of run %d (%s) did not reproduce in the parent process: it depends on "
